@@ -30,12 +30,12 @@ impl super::GetFrameType for NewTokenFrame {
 
 impl super::EncodeSize for NewTokenFrame {
     fn max_encoding_size(&self) -> usize {
-        // token's length could not exceed 20
-        1 + 1 + self.token.len()
+        self.encoding_size()
     }
 
     fn encoding_size(&self) -> usize {
-        1 + 1 + self.token.len()
+        // the token length is written as a varint: two bytes from 64 bytes on
+        1 + VarInt::from_u32(self.token.len() as u32).encoding_size() + self.token.len()
     }
 }
 
